@@ -1,5 +1,5 @@
 from abc import ABC, abstractmethod
-from collections.abc import Callable, Iterable, Sequence
+from collections.abc import Callable, Iterable, Mapping, Sequence
 from enum import Enum
 from typing import Any, Generic, Optional, TypeVar, Union
 
@@ -278,7 +278,8 @@ class ConstType(Enum):
     UNKNOWN = kw.keyword("unknown")
 
 
-KeywordArgs = IPersistentMap[str, Node]
+# An insertion ordered (read-only) mapping: values are evaluated in source order
+KeywordArgs = Mapping[str, Node]
 NodeMeta = Union[None, "Const", "Map"]
 LoopID = str
 
